@@ -25,6 +25,7 @@ fn main() {
         match prop {
             "C01" | "C03" | "C07" => vcore::ck_engine::replay(prop, path),
             "C08" => vcore::ck_crash::replay(path),
+            "C05" => vcore::ck_cancel::replay(path),
             "C06" => vcore::ck_cycle::replay(path),
             "C04" => vcore::conc::replay("C04", path),
             "C02" => vcore::conc::replay("C02", path),
@@ -44,6 +45,7 @@ fn main() {
         match prop {
             "C01" | "C03" | "C07" => vcore::ck_engine::check(prop, tier),
             "C08" => vcore::ck_crash::check(tier),
+            "C05" => vcore::ck_cancel::check(tier),
             "C06" => vcore::ck_cycle::check(tier),
             "C04" => vcore::conc::check("C04", tier),
             "C02" => vcore::conc::check("C02", tier),
